@@ -46,28 +46,32 @@ def main(tag, skip_confirm=False):
             ran.append('existing tests with the patch: %d passed; failing tests: %s' % (passed_n, failed))
         finally:
             sh('rm -rf %s/target; git -C /repo worktree remove --force %s; /verif/tools/cleantmp.sh' % (wt, wt))
-    # 2. run checks against the patched /repo
-    rc, out = sh('git -C /repo status --porcelain')
-    assert out.strip() == '', '/repo is dirty: ' + out
-    rc, out = sh('git -C /repo apply %s/patch.diff || (git -C /repo apply --3way %s/patch.diff && git -C /repo reset -q)' % (src, src))
+    # 2. run checks against a scratch copy of /repo's working tree with the patch applied (same machinery: VERIF_REPO)
+    import tempfile, hashlib, glob
+    d = tempfile.mkdtemp(prefix='lcv-seed-')
+    for f in ('Cargo.toml', 'Cargo.lock', 'rust-toolchain', 'build.rs', 'README.md'):
+        if os.path.exists('/repo/' + f):
+            shutil.copy2('/repo/' + f, d)
+    shutil.copytree('/repo/src', d + '/src')
+    rc, out = sh('patch -p1 -s -f -d %s -i %s/patch.diff' % (d, src))
     assert rc == 0, out
     caught = {}
     try:
         man = json.load(open(os.path.join(VERIF, 'MANIFEST.json')))
         ids = [c['property_id'] for c in man['checks']]
-        for extra in ('C10', 'C14'):
-            if extra not in ids and os.path.exists(os.path.join(VERIF, 'rules', extra + '.py')):
-                ids.append(extra)
-        env = 'VERIF_EVIDENCE_DIR=/tmp/seed-ev-%s VERIF_REPORT_DIR=/tmp/seed-rep-%s' % (tag, tag)
+        env = 'VERIF_REPO=%s VERIF_EVIDENCE_DIR=%s/_e VERIF_REPORT_DIR=%s/_r' % (d, d, d)
         for i in ids:
             rc, o = sh('%s ./lcv check %s' % (env, i), cwd=VERIF)
             keys = [l.strip()[10:].split('  at ')[0] for l in o.split('\n') if l.strip().startswith('violated:')]
-            known = [l for l in o.split('\n') if l.startswith('KNOWN-FINDING')]
-            caught[i] = {'exit': rc, 'violations': keys}
+            caught[i] = {'exit': rc, 'violations': keys, 'tail': o[-300:] if rc == 2 else ''}
     finally:
-        sh('git -C /repo checkout -- .')
-        sh('rm -rf /tmp/seed-ev-%s /tmp/seed-rep-%s' % (tag, tag))
-        # facts for the clean tree are rebuilt lazily by the next check
+        tagd = hashlib.sha256(os.path.abspath(d).encode()).hexdigest()[:8]
+        shutil.rmtree(d, ignore_errors=True)
+        for f in glob.glob(os.path.join(VERIF, '.cache', '*%s*' % tagd)):
+            try:
+                os.unlink(f)
+            except OSError:
+                pass
     fired = {k: v for k, v in caught.items() if v['exit'] == 1}
     incon = {k: v for k, v in caught.items() if v['exit'] == 2}
     dst = os.path.join(VERIF, 'seeded', tag)
@@ -77,7 +81,7 @@ def main(tag, skip_confirm=False):
     meta['confirmed_by_me'] = confirmed
     meta['what_i_ran'] = ran
     meta['checks_reporting_violation'] = {k: v['violations'] for k, v in fired.items()}
-    meta['checks_inconclusive'] = sorted(incon)
+    meta['checks_inconclusive'] = {k: v['tail'] for k, v in incon.items()}
     meta['caught'] = bool(fired)
     json.dump(meta, open(os.path.join(dst, 'meta.json'), 'w'), indent=1)
     print(json.dumps({'tag': tag, 'confirmed': confirmed, 'caught_by': {k: v['violations'][:3] for k, v in fired.items()}, 'inconclusive': sorted(incon)}, indent=1))
